@@ -74,7 +74,7 @@ def enumerated(tier):
 
 
     # a history with more than ten generations, then several creates in a row (within one clock second)
-    yield {"root": "long", "tree": {"a.mov": "a", "kid": {"b.mov": "b"}}, "spell": "abs", "damage": None,
+    yield {"root": "long", "tree": {"a.mov": "a", "kid": {"b.mov": "b"}}, "spell": "abs", "damage": None, "frozen": "2021-05-05 10:00:00",
            "steps": [{"op": "create", "root": "kid", "formats": ["md5"], "flags": []}] + [{"op": "create", "root": "", "formats": ["md5"], "flags": []} for _ in range(11)],
            "probes": [["create", 0], ["create_n", 1], ["create", 2], ["create_sf", 3], ["create", 4], ["verify", 5]]}
 
@@ -127,7 +127,7 @@ def run_case(scn, ctx):
         hist.setup_world(w, scn)
         top = scn["root"]
         for step in scn["steps"]:
-            hist.apply_step(w, scn, step)
+            hist.apply_step(w, scn, step, **({"frozen": scn["frozen"]} if scn.get("frozen") and step["op"] in ("create", "create_sf", "flatten") else {}))
         roots = w.history_roots()
         if len(roots) >= 2:
             feats.add("nested_world")
@@ -290,7 +290,7 @@ def run_case(scn, ctx):
                 args = ("create", base)
             before = w.snapshot()
             with fsmon.monitor() as events:
-                res = w.run(*args, cwd=relcwd if kind == "flatten" else None)
+                res = w.run(*args, cwd=relcwd if kind == "flatten" else None, **({"frozen": scn["frozen"]} if scn.get("frozen") else {}))
             after = w.snapshot()
             ctx.event("invocations")
             ctx.event("probe_" + probe)
